@@ -420,8 +420,7 @@ class ResourceAnalysis:
                 self.add('RES.8', okrec, f'row {row}: pushed entry is {{t, next+1}}', qs[0][1].shortloc(), '' if okrec else f'pushed {val}, expected {{type={v["t"]}, upperBound=next+1}}')
             self.add('RES.6', True, f'row {row}: push', qs[0][1].shortloc())
             if want_ext:
-                self.add('RES.7', False, f'row {row}: consecutive readers', qs[0][1].shortloc(),
-                         f'a read request arriving behind a queued reader gets its own queue entry instead of joining the batch: {row} — readers queued consecutively are granted one at a time')
+                self._res7_separate = getattr(self, '_res7_separate', []) + [(row, qs[0][1].shortloc())]
         else:
             self.add('RES.6', False, f'row {row}: enqueue performs {len(qs)} queue operation(s) and {len(ext)} extension(s)', site, 'a waiting request must be recorded exactly once (a second operation overwrites or duplicates a queued request)')
 
@@ -534,8 +533,14 @@ class ResourceAnalysis:
         else:
             pops = [e[2][0] for e in qs]
             okq = pops == ['pop_front']
-            self.add('RES.5', okq, f'row {row}: exactly the front entry is removed', (qs[0][1].shortloc() if qs else ssite),
-                     '' if okq else f'queue operations {pops}: requests must be granted in arrival order, one entry per selection')
+            if not okq and pops and all(p_ == 'pop_front' for p_ in pops):
+                # several entries leave the queue in one selection: a design that forms the batch at admission time (one entry per request,
+                # consecutive readers merged here) — which entries may be merged is not in the front / back vocabulary of these rows
+                self.merges_at_admission = True
+                self.add('RES.5', None, f'row {row}: exactly the front entry is removed', qs[0][1].shortloc(), f'{len(pops)} entries are popped in one selection (batching at admission time): not followed')
+            else:
+                self.add('RES.5', okq, f'row {row}: exactly the front entry is removed', (qs[0][1].shortloc() if qs else ssite),
+                         '' if okq else f'queue operations {pops}: requests must be granted in arrival order, one entry per selection')
             self.add3('RES.5', op1, [E(v['front'])], f'row {row}: the active operation becomes the front entry\'s type', ssite, f'active operation set to {op1}, front entry is {v["front"]}')
             self.add3('RES.5', bnd1, [Lin.sym('front.ub')], f'row {row}: the published bound is the front entry\'s bound (whole batch)', ssite,
                       f'bound set to {bnd1}, expected front.upperBound: part of the batch keeps waiting / tickets beyond the batch are admitted')
@@ -655,13 +660,60 @@ class ResourceAnalysis:
                            f'while a guard on another Resource is alive the {what} skips the operation, so the resource is used without the lock (or left locked)')
         return None, f'the {g} {what} calls {opname}() only if {txt}: a conditional guard is outside the forwarding table'
 
+    def widths(self):
+        """RES.4: the holder count is incremented once per admitted request, with no upper limit on the number of requests (read locks are
+        counted per acquisition): its type must be able to hold every such number"""
+        c = self.facts.cls(CLS) or {'fields': []}
+        BITS = {'unsigned long': 64, 'long': 64, 'unsigned long long': 64, 'long long': 64, 'unsigned int': 32, 'int': 32, 'unsigned short': 16, 'short': 16,
+                'unsigned char': 8, 'signed char': 8, 'char': 8, 'bool': 1}
+        for fld_, what in (('m_activeCount', 'holder count'),):
+            fd = next((x for x in c['fields'] if x['name'] == fld_), None)
+            if fd is None: continue
+            ct = (fd.get('ctype') or '').replace('const ', '').replace('volatile ', '').strip()
+            if ct.startswith('std::atomic<'): ct = ct[len('std::atomic<'):-1].strip()
+            bits = BITS.get(ct)
+            inst = f'{fld_} ({ct}) can count every number of simultaneous holders'
+            if bits is None: self.add('RES.4', None, inst, fd.get('loc', ''), f'width of `{ct}` not known')
+            elif bits >= 64: self.add('RES.4', True, inst, fd.get('loc', ''))
+            elif bits >= 32: self.add('RES.4', None, inst, fd.get('loc', ''), f'a {bits}-bit {what} wraps after 2^{bits} acquisitions: whether that many read locks can be held at once is not decided')
+            else: self.add('RES.4', False, inst, fd.get('loc', ''), f'the {what} is a {bits}-bit `{ct}` and the fast path increments it unchecked: with 2^{bits} + 1 read locks held (they are counted per acquisition, one thread can take them) it reads 1, '
+                           f'so the next unlockRead() brings it to 0 and admits a queued writer while 2^{bits} read locks are still held')
+
+    def _res7_verdicts(self):
+        # a reader queued behind a reader got its own entry: wrong when entries are admitted one per selection, not decided when the
+        # selection itself merges entries (batching at admission time)
+        for row, site_ in getattr(self, '_res7_separate', []):
+            if getattr(self, 'merges_at_admission', False):
+                # the selection merges entries itself.  If no pop of the queue sits in a loop, one selection removes a bounded number of entries,
+                # while any number of readers can have queued up one entry each: the batch is cut
+                fns_ = [self.fn[k] for k in ('select', 'unlock') if k in self.fn]
+                def in_loop(fn_):
+                    pm = common.parent_map(fn_)
+                    for n in fn_.nodes():
+                        if n.k == 'call' and n.callee_base() in ('pop_front', 'erase') and n.n('object') is not None and n.n('object').is_field('m_queue', CLS):
+                            x = n
+                            while x is not None and x.id in pm:
+                                x = pm[x.id]
+                                if x.k in ('while', 'for', 'do', 'rangefor'): return True
+                    return False
+                npop = max((sum(1 for n in fn_.nodes() if n.k == 'call' and n.callee_base() == 'pop_front' and n.n('object') is not None and n.n('object').is_field('m_queue', CLS)) for fn_ in fns_), default=0)
+                if fns_ and not any(in_loop(fn_) for fn_ in fns_):
+                    self.add('RES.7', False, f'row {row}: consecutive readers', site_, f'every queued reader gets its own entry and one selection removes at most {npop} entries (no loop): of {npop + 1} or more readers that queued up consecutively behind a writer only the first {npop} are admitted together')
+                else:
+                    self.add('RES.7', None, f'row {row}: consecutive readers', site_, 'a reader behind a queued reader gets its own entry and the selection pops entries in a loop: whether exactly the consecutive readers are merged there is not followed')
+            else:
+                self.add('RES.7', False, f'row {row}: consecutive readers', site_,
+                         f'a read request arriving behind a queued reader gets its own queue entry instead of joining the batch: {row} — readers queued consecutively are granted one at a time')
+
     def run(self):
         if self.rep.broken: return
+        self.widths()
         self.res1()
         self.lock_rows()
         self.other_writers()
         self.predicate()
         self.unlock_rows()
+        self._res7_verdicts()
         self.forwarding()
 
 
